@@ -441,7 +441,9 @@ theorem step_circ_cases [DecidableEq Tag] (C : Crypto Tag Sess Blob) (n : Node S
     simp only [step, onCreatedG_eq, onExtendedG_eq, joinCircuit]
     split
     · exact h0
-    · split <;> exact h0
+    · split
+      · exact h0
+      · split <;> exact h0
   | extend cid' ident nodePk key ag toCid number =>
     left
     simp only [step, onCreatedG_eq, onExtendedG_eq, onExtend]
@@ -534,7 +536,9 @@ theorem step_absent [DecidableEq Tag] (C : Crypto Tag Sess Blob) (n : Node Sess)
     simp only [step, onCreatedG_eq, onExtendedG_eq, joinCircuit]
     split
     · exact h0
-    · split <;> exact h0
+    · split
+      · exact h0
+      · split <;> exact h0
   | extend cid' ident nodePk key ag toCid number =>
     simp only [step, onCreatedG_eq, onExtendedG_eq, onExtend]
     split
@@ -862,9 +866,7 @@ theorem step_joined [DecidableEq Tag] (C : Crypto Tag Sess Blob) (n : Node Sess)
       n.circuits req.toCid = none ∧ n.relays req.toCid = none ∧ n.exits req.toCid = none ∧
       (step C n e).1.exits = upd n.exits req.fromCid none ∧
       (step C n e).1.relays = upd (upd n.relays req.toCid (some ⟨req.fromCid, req.peer, ex.keys, false⟩))
-        req.fromCid (some ⟨req.toCid, req.toPeer, ex.keys, true⟩)) ∨
-    (∃ cid ident nodePk key y offered h, e = .join cid ident nodePk key y offered ∧ n.created cid = none ∧
-      (step C n e).1.exits = upd n.exits cid (some h) ∧ (step C n e).1.relays = n.relays) := by
+        req.fromCid (some ⟨req.toCid, req.toPeer, ex.keys, true⟩)) := by
   have origin : ∀ cid ident key auth cands env,
       (originAnswer C n cid ident key auth cands env).1.exits = n.exits ∧
       (originAnswer C n cid ident key auth cands env).1.relays = n.relays := by
@@ -892,7 +894,7 @@ theorem step_joined [DecidableEq Tag] (C : Crypto Tag Sess Blob) (n : Node Sess)
         by_cases hused : ((n.circuits req.toCid).isSome || (n.relays req.toCid).isSome ||
             (n.exits req.toCid).isSome) = true
         · left; simp [step, onCreatedG_eq, onExtendedG_eq, onCreated, hcr, hex, hpeer, hused]
-        · right; right; left
+        · right; right
           have hu := hused
           simp only [Bool.or_eq_true, not_or, Option.isSome_iff_ne_none, ne_eq, Classical.not_not] at hu
           refine ⟨cid, ident, key, auth, cands, env, req, ex, rfl, hcreq, hex, hu.1.1, hu.1.2, hu.2, ?_, ?_⟩ <;>
@@ -923,10 +925,12 @@ theorem step_joined [DecidableEq Tag] (C : Crypto Tag Sess Blob) (n : Node Sess)
     · left; exact ⟨rfl, rfl⟩
     · split
       · left; exact ⟨rfl, rfl⟩
-      · next hc =>
-        right; right; right
-        simp only [Option.isSome_iff_ne_none, ne_eq, Classical.not_not] at hc
-        exact ⟨cid, ident, nodePk, _, y, offered, _, rfl, hc, rfl, rfl⟩
+      · split
+        · left; exact ⟨rfl, rfl⟩
+        · next hused =>
+          right; left
+          simp only [Bool.or_eq_true, not_or, Option.isSome_iff_ne_none, ne_eq, Classical.not_not] at hused
+          exact ⟨cid, _, hused.2, hused.1.2, hused.1.1, rfl, rfl⟩
   | extend cid ident nodePk key ag toCid number =>
     left
     simp only [step, onCreatedG_eq, onExtendedG_eq, onExtend]
@@ -1146,7 +1150,9 @@ theorem step_circ_kind [DecidableEq Tag] (C : Crypto Tag Sess Blob) (n : Node Se
       simp only [step, onCreatedG_eq, onExtendedG_eq, joinCircuit]
       split
       · rfl
-      · split <;> rfl
+      · split
+        · rfl
+        · split <;> rfl
     rw [this, h0] at h1; cases h1; exact hinv
   | extend cid' ident nodePk key ag toCid number =>
     have : (step C n (.extend cid' ident nodePk key ag toCid number)).1.circuits cid = n.circuits cid := by
